@@ -6,23 +6,24 @@ CFG = {
                   "arraystack and linkedliststack the LIFO list (thin layers over the C07 list models, C08_arrayqueue ... "
                   "C08_linkedliststack); binaryheap (= priorityqueue) on the array-list model with bubbleUp, bubbleDownIndex and the bulk "
                   "heapify keeps the heap order after every operation, never panics, Pop/Peek return a minimum under ANY total "
-                  "transitive comparator, Pop removes exactly one occurrence (multiset/Permutation), Size/Empty are exact "
-                  "(C08_heap_partial), Peek = next Pop (C08_heap_peek_is_next_pop). Tied to the code on every run: every result, and "
+                  "transitive comparator, Pop removes exactly one occurrence (multiset/Permutation), Values() (through the model of the "
+                  "iterator's per-level temporary heaps) is a permutation of the contents, Size/Empty are exact "
+                  "(C08_heap, for every operation list), Peek = next Pop (C08_heap_peek_is_next_pop). Tied to the code on every run: every result, and "
                   "after every mutator Peek/Values/Size/Empty(/Full) plus ring cursors and the heap's whole backing array through "
                   "verif accessors, are compared with the model (kind 1) and judged by the abstract discipline (kind 2) inside Coq.",
-    "level_note": "PARTIAL for one clause: binaryheap/priorityqueue Values() (which walks the iterator: a temporary heap per level) is "
-                  "modelled and tied on every run and judged as a permutation of the reference multiset, but has NO theorem "
-                  "(C08_heap_partial excludes operation lists that call Values). The model is the model of the code with repair 0021 "
-                  "(D19) applied. Element type int; comparators exercised: IntComparator and its ReverseComparator.",
+    "level_note": "The model is the model of the code with repair 0021 (D19) applied. Element type int; comparators exercised: "
+                  "IntComparator and its ReverseComparator; the heap theorems hold for any total transitive comparator. The heap's "
+                  "discipline is a relation (Pop returns *a* minimum), decided by bag_accept; FIFO/LIFO/ring results are compared "
+                  "with = against the reference.",
     "harness": "c08",
     "theorems": [("C08.Props", [
         "C08_circ", "C08_arrayqueue", "C08_linkedlistqueue", "C08_arraystack", "C08_linkedliststack",
-        "C08_heap_partial", "C08_heap_peek_is_next_pop", "C08_heap_root_is_min", "C08_int_comparators"])],
+        "C08_heap", "C08_heap_peek_is_next_pop", "C08_heap_root_is_min", "C08_perm_b", "C08_spec_lastn", "C08_int_comparators"])],
     "trusted": [
         "comparator enters the heap model only as le a b := (Comparator(a,b) <= 0); theorems assume it total and transitive (premises, "
         "proved for the two int comparators used)",
     ],
-    "modelled": ["binaryheap Values()/iterator Value() (temporary heap per level): modelled and tied, not proved",
-                 "circularbuffer.New panics for maxSize < 1 (outside the property: capacity >= 1)"],
+    "modelled": ["circularbuffer.New panics for maxSize < 1 (outside the property: capacity >= 1)",
+                 "reflect.DeepEqual is gone from circularbuffer after the repair; Go make() zero-filling as repeat 0"],
     "assumptions": ["element type int", "capacities 1..5 exercised, theorem for every capacity >= 1"],
 }
